@@ -24,7 +24,7 @@ class C19(Check):
             'that are multiples of the sampling period P in {0.5 s, 1 s}; a discrete trace of n <= 12 samples is evaluated by the discrete-time monitor and, as '
             'a step signal changing only at multiples of P, by the dense-time monitor; for every k with k + horizon < n the dense value at k*P must equal the '
             'discrete value at k; both are also compared with the models (rho, Dn); non-trivial = temporal operator and non-empty settled region; '
-            'a quarter of the cases with bounded operators write the bounds with explicit units (both ends / one end only, s / ms / us); plus bounded operators with windows of 3-6 periods over ramp-shaped traces of 8-18 samples; distinct by (formula, trace, P)')
+            'a quarter of the cases with bounded operators write the bounds with explicit units (both ends / one end only, s / ms / us); plus decimal sampling periods (0.1 s, 0.2 s, 0.01 s: time-stamps k*P and bounds that are not binary fractions); plus bounded operators with windows of 3-6 periods over ramp-shaped traces of 8-18 samples; distinct by (formula, trace, P)')
 
     def gen_cases(self, rng, tier):
         cases = []
@@ -42,6 +42,18 @@ class C19(Check):
                 # the bounds in another unit notation (explicit units on both ends or on one end only; the default unit stays s)
                 c['unit_style'] = [rng.choice(['both', 'begin', 'end']), rng.randrange(1 << 30)]
             cases.append(c)
+        # decimal sampling periods (0.1 s, 0.2 s, 0.01 s): the time-stamps k*P and the bounds are not binary fractions
+        X1 = ('pred', 'geq', ('var', 0), ('const', 1))
+        decs = [(('alwt', 1, 1, ('var', 0)), 10, 100), (('evt', 1, 3, ('var', 0)), 10, 100), (('oncet', 1, 1, X1), 10, 100), (('histt', 2, 2, X1), 10, 200), (('evt', 1, 1, ('evt', 7, 7, ('var', 0))), 12, 100)]
+        for (f, n, ms) in decs:
+            for _ in range(2):
+                cases.append({'f': f, 'n': n, 'nv': 1, 'cols': [[rng.randint(-4, 6) for _ in range(n)]], 'P': 2, 'dec_ms': ms})
+        for i in range(nrand // 10):
+            f = frag_formula(rng, 1, rng.choice([1, 2]), 2)
+            if fml.size(f) > 14 or not fml.fvars(f) or not (fml.ops(f) & (fml.TUN | fml.TBIN)):
+                continue
+            n = rng.choice([5, 8, 12])
+            cases.append({'f': f, 'n': n, 'nv': need_vars(f, 1), 'cols': fml.gen_trace(rng, need_vars(f, 1), n), 'P': 2, 'dec_ms': rng.choice([100, 200, 10])})
         # unbounded once / historically nested in each other (the dense visitors share a running value between the two)
         X1, Y0 = ('pred', 'geq', ('var', 0), ('const', 1)), ('pred', 'geq', ('var', 1), ('const', 0))
         for f in [('hist', ('implies', ('once', X1), Y0)), ('hist', ('hist', ('pred', 'geq', ('var', 1), ('a1', 'neg', ('const', 1))))), ('once', ('hist', X1)),
@@ -83,6 +95,9 @@ class C19(Check):
 
     def spec_text(self, c):
         P = c['P']
+        if c.get('dec_ms'):
+            # bounds in seconds, written as decimals (k periods of dec_ms milliseconds)
+            return 'out = ' + fml.to_text(c['f'], lambda b, e: '[%s,%s]' % (repr(b * c['dec_ms'] / 1000.0), repr(e * c['dec_ms'] / 1000.0)))
         if c.get('unit_style'):
             import random
             from harness.densex import dense_bound
@@ -100,12 +115,16 @@ class C19(Check):
         P = c['P']
         used = fml.fvars(c['f'])
         per = [500, 'ms', 0.1] if P == 2 else [1, 's', 0.1]
-        data = {'time': [k * P * dense.SCALE for k in range(c['n'])]}
+        stamp = lambda k: k * P * dense.SCALE
+        if c.get('dec_ms'):
+            per = [c['dec_ms'], 'ms', 0.1]
+            stamp = lambda k: k * (c['dec_ms'] / 1000.0)
+        data = {'time': [stamp(k) for k in range(c['n'])]}
         for i in used:
             data[fml.VARS[i]] = list(c['cols'][i])
         disc = {'monitor': 'discrete-offline', 'vars': fml.VARS[:c['nv']], 'period': per, 'spec': self.spec_text(c), 'calls': [['evaluate', data]]}
         dn = {'monitor': 'dense-offline', 'vars': fml.VARS[:c['nv']], 'spec': self.spec_text(c),
-              'calls': [['evaluate', [[fml.VARS[i], [[k * P * dense.SCALE, float(c['cols'][i][k])] for k in range(c['n'])]] for i in used]]]}
+              'calls': [['evaluate', [[fml.VARS[i], [[stamp(k), float(c['cols'][i][k])] for k in range(c['n'])]] for i in used]]]}
         return [disc, dn]
 
     def judge(self, c, mlines, ires):
@@ -127,6 +146,10 @@ class C19(Check):
             vals.append(i['calls'][0]['value'])
         disc = [p[1] for p in vals[0]]
         dn = dense.from_impl(vals[1])
+        if c.get('dec_ms'):
+            # the dense result is read at the instants k * 0.1 s themselves (time in ticks of P/2 periods, as in the model)
+            dn = [[t / (c['dec_ms'] / 1000.0) * P if t != math.inf else t, v] for t, v in vals[1]]
+            dn = [[t, {'inf': math.inf, '-inf': -math.inf}.get(v, v)] for t, v in dn]
         settled = [k for k in range(c['n']) if k + h < c['n']]
         num = lambda v: math.inf if v == 'inf' else (-math.inf if v == '-inf' else v)
         for k in settled:
@@ -141,11 +164,22 @@ class C19(Check):
         c['_settled'] = len(settled)
         return 'ok', None
 
+    def signature(self, c, detail):
+        sig = Check.signature(self, c, detail)
+        if c.get('dec_ms'):
+            sig['shape'] = 'decimal_time_stamps'
+        return sig
+
+    def still_fails(self, model, c, shape=None):
+        if c.get('dec_ms'):
+            return False, None
+        return Check.still_fails(self, model, c, shape)
+
     def nontrivial(self, c):
         return c.get('_settled', 0) > 0 and bool(fml.ops(c['f']) & {'once', 'hist', 'oncet', 'histt', 'evt', 'alwt'})
 
     def key(self, c):
-        return json.dumps([fml.to_sx(c['f']), c['cols'], c['P']])
+        return json.dumps([fml.to_sx(c['f']), c['cols'], c['P'], c.get('dec_ms')])
 
     def describe(self, c):
         return {'spec': self.spec_text(c), 'P_s': c['P'] * dense.SCALE, 'trace': c['cols']}
